@@ -17,6 +17,10 @@ def run(ctx):
     R_ALL = ctx.rule("C01.allfields", "derive(Lattice)/derive(Merge) output: the merge of every struct field is executed on every path from entry to return", floor=1)
     R_USED = ctx.rule("C01.used", "every Merge/LatticeFrom/IsBot/PartialOrd/PartialEq bound of every Merge and LatticeFrom impl is exercised by its body", floor=28)
     R_POINT = ctx.rule("C01.point", "Point::merge returns only through the values-equal edge; the unequal edge diverges (panics)", floor=1)
+    R_PS = ctx.rule("C01.predsib", "a Merge impl that special-cases bottom/top component values is matched by PartialEq/PartialOrd impls consulting the same predicate "
+                    "(else merge(a, a) can differ from a as judged by the lattice's own equality: idempotence breaks)", floor=10)
+    from lattice_common import predsib_rule
+    predsib_rule(ctx, c, R_PS)
     merges = lattice_impls(c, {"lattices::Merge"})
     froms = lattice_impls(c, {"lattices::LatticeFrom"})
     used_rule(ctx, c, R_USED, merges + froms, {"lattices::Merge", "lattices::LatticeFrom", "lattices::IsBot", "lattices::IsTop", "core::cmp::PartialOrd", "core::cmp::PartialEq", "core::cmp::Ord"})
